@@ -832,7 +832,14 @@ def derived(v, kind):
 
 def rt_getattr(obj, name, *default):
     if isinstance(name, SymStr):
-        name = name.unique()
+        # symbolic attribute name (e.g. getattr(self, f"check_{directive}", None)): one fork per existing
+        # attribute of that length, then the default / AttributeError
+        for a in sorted(a for a in dir(obj) if len(a) == len(name)):
+            if name == a:
+                return getattr(obj, a)
+        if default:
+            return default[0]
+        raise AttributeError(name.concretize())
     return getattr(obj, name, *default)
 
 
@@ -1053,7 +1060,13 @@ def fstr(*parts):
         elif isinstance(p, (SymInt, Rope)):
             out += list("<sym>")     # only ever used in messages (debug prints, BAD_LEXEME text)
         else:
-            out += list(format(p))
+            try:
+                out += list(format(p))
+            except TypeError:
+                r = p.__str__()          # e.g. Token.__str__ returns a SymStr when its value is symbolic
+                if not isinstance(r, (str, SymStr)):
+                    raise
+                out += SymStr.items(r)
     return SymStr.mk(out)
 
 
